@@ -283,3 +283,58 @@ func RunFile(harnesses map[string]func()) (int, error) {
 	}
 	return len(outs), nil
 }
+
+// CborHeaders walks a (concrete) CBOR encoding and returns the offsets of the headers of all definite-length
+// arrays, maps, byte strings and text strings at the top nesting level of the encoding and inside arrays, maps
+// and tags (not inside strings). Used by the C04 "wide header" harnesses to re-encode one count or length of an
+// otherwise valid message as an arbitrary 64-bit value.
+func CborHeaders(b []byte) (pos []int) {
+	i := 0
+	for i < len(b) {
+		start := i
+		m, ai := b[i]>>5, b[i]&31
+		i++
+		var arg uint64
+		switch {
+		case ai < 24:
+			arg = uint64(ai)
+		case ai >= 24 && ai <= 27:
+			n := 1 << (ai - 24)
+			if i+n > len(b) {
+				return
+			}
+			for k := 0; k < n; k++ {
+				arg = arg<<8 | uint64(b[i+k])
+			}
+			i += n
+		case ai == 31:
+			continue // indefinite length or break: no count to widen
+		default:
+			return
+		}
+		switch m {
+		case 2, 3:
+			pos = append(pos, start)
+			if uint64(len(b)-i) < arg {
+				return
+			}
+			i += int(arg)
+		case 4, 5:
+			pos = append(pos, start)
+		}
+	}
+	return
+}
+
+// WidenHeader returns enc with the CBOR header at offset p re-encoded in its 9-byte form whose 8 argument bytes are arg.
+func WidenHeader(enc []byte, p int, arg []byte) []byte {
+	ai := enc[p] & 31
+	skip := 1
+	if ai >= 24 && ai <= 27 {
+		skip += 1 << (ai - 24)
+	}
+	out := append([]byte{}, enc[:p]...)
+	out = append(out, enc[p]&0xe0|27)
+	out = append(out, arg...)
+	return append(out, enc[p+skip:]...)
+}
